@@ -52,6 +52,11 @@ def absorbs(g, ir, ch, depth=0):
             if trig is not None and trig["t"] == "seq" and len(trig["items"]) >= 2:
                 if c05.may_succeed_before(g, trig["items"][-1]["p"], ch):
                     return True
+            # the trigger is one run of characters (`take_while(2.., letters)`, `take_till(2.., stops)`): a run that may contain ch
+            # reaches across a valid argument and the ch behind it — `-type f<TAB>-print` is then one long "invalid type"
+            trun = unwrap(trig) if trig is not None else None
+            if trun is not None and trun["t"] == "set" and (trun["max"] is None or trun["max"] > 1) and peg.cs_has(trun["cs"], ch):
+                return True
         return False
     if t in ("map", "value", "trymap", "fold", "verify"):
         return absorbs(g, ir["p"], ch, depth + 1)
